@@ -1,2 +1,3 @@
 -- Root of the `SqlglotModel` library: every property file (and through them every model and proof file).
+import SqlglotModel.Properties.C13
 import SqlglotModel.Properties.C18
